@@ -150,6 +150,31 @@ def body_session(h):
     return obs
 
 
+def body_first_string(h):
+    """a collection during the very first string assignment (no permanent string exists yet)"""
+    from . import session
+    impl = session.mk_impl(h)
+    impl.execute(b'N%=0:M%=0:L%=0')
+    n, m = h.choice('n', [0, 1, 3]), h.choice('m', [0, 2])
+    impl.execute(b'N%%=%d:M%%=%d' % (n, m))
+    t = h.bytes('t', 2)
+    res = h.call(impl.execute, b'A$=STRING$(N%,"a")+STRING$(M%,"b")+MID$("q",1+0*FRE("")): L%=LEN(A$)')
+    h.require('no-host-exception', res[0] == 'ok', res)
+    if res[0] != 'ok':
+        return [res[0]]
+    h.require('no-error', impl.interpreter.error_num == 0, impl.interpreter.error_num)
+    got = impl.get_variable(b'A$')
+    want = [97] * n + [98] * m + [113]
+    h.require('value-of-A$', s_and(len(got) == len(want), bytes_eq(got, want)), got)
+    # a second string with symbolic content must not disturb the first
+    impl.set_variable(b'T$', t)
+    impl.execute(b'B$=T$+A$: F=FRE("")')
+    got2 = impl.get_variable(b'B$')
+    h.require('value-of-B$', s_and(len(got2) == 2 + len(want), bytes_eq(got2, list(t) + want)), got2)
+    h.require('A$-kept', bytes_eq(impl.get_variable(b'A$'), want))
+    return [list(got), list(got2)]
+
+
 def cases(tier):
     cs = []
     shapes = [(1,), (0, 2), (2, 1), (3, 0, 1), (1, 1, 1), (2, 3, 1)]
@@ -159,6 +184,7 @@ def cases(tier):
         for nl in (0, 2):
             cs.append(Case('heap-%s-new%d' % ('_'.join(map(str, lens)), nl), body,
                            params={'lens': lens, 'newlen': nl}, max_fanout=100))
+    cs.append(Case('session-first-string', body_first_string, max_fanout=100, timeout_s=900))
     for tight in ([0, 250, 180] if tier != 'thorough' else [0, 250, 230, 200, 180]):
         cs.append(Case('session-strings-free%d' % tight, body_session, params={'tight': tight},
                        max_fanout=100, timeout_s=3000, max_paths=5000))
